@@ -118,8 +118,9 @@ AllOf(items, fam) == \A i \in DOMAIN items : items[i].f = fam
 Conforms(T, c, w) ==
   CASE T = "command" /\ c # "none" ->
           /\ w.f = "ARR" /\ Len(w.items) = 2 /\ w.items[2] = Int
-          /\ w.items[1].f = "ARR" /\ Len(w.items[1].items) = 2 /\ w.items[1].items[1] = Str
-          /\ w.items[1].items[2].f = "ARR" /\ AllOf(w.items[1].items[2].items, "STR")
+          /\ \/ w.items[1] = Nil                                   \* a command without an executable: nil, then the flavour
+             \/ /\ w.items[1].f = "ARR" /\ Len(w.items[1].items) = 2 /\ w.items[1].items[1] = Str
+                /\ w.items[1].items[2].f = "ARR" /\ AllOf(w.items[1].items[2].items, "STR")
     [] (T = "stringlist" \/ T = "dynamic") /\ c = "texts" -> w.f = "ARR" /\ w.items # <<>> /\ AllOf(w.items, "STR")
     [] T = "dictlist" /\ c = "dicts" -> w.f = "ARR" /\ w.items # <<>> /\ AllOf(w.items, "MAP")
     [] T = "digest" /\ c = "none" -> w = Nil \/ w = Arr(<<Nil, Nil, Nil>>)     \* unset: nil, or the empty default
